@@ -32,6 +32,9 @@ CHECKS = {
  "C14": dict(text="Watch.tla models the long-lived session: disk contents, the BUNDLER cache of parsed modules, the set of watched files, and the actions Edit(f, c) (a file changes; watched files are forwarded to update_file_content_inner and trigger a rebuild, as in commandeer.ts) and Rebuild (get_or_fetch_file: cache first, else read + parse + insert). TLC checks HistoryIndependent (every rebuild equals a fresh build of the current files) and CacheCoherent on the complete state graph (valid, unresolvable and unparsable variants, changing import graph). A shortest history to every state, extended by every possible next step, plus seeded random walks are replayed on the real beff-wasm code through the cfg(beff_verif) native host; Trace_Watch.tla requires each logged step to be the model's step (same cache keys, same watched set, same rebuild trigger) and the rebuild output to equal a fresh process's output byte for byte.",
              ref="4/C14", note="Trusted: TLC; the native host standing for the JS imports; the session binary's transcription of the watch loop; thread-local BUNDLER = one session per thread.",
              tech="TLC model checking of the session state machine + replay of an edge cover and random walks + trace validation"),
+ "C04": dict(text="Three TLC-enumerated program domains: TsGrammar.tla (a state machine on source text whose actions are the productions of the whole TypeScript type syntax, supported or not, over a prelude of declarations incl. generic, recursive and cyclic aliases, enums, consts, interfaces, classes), MC_Mutate.tla (every (program, operator, position) mutation of the repository's 319 test programs: delete / duplicate declarations, rename references, swap / drop type arguments, alias chains, cyclic aliases, wrapping in utilities, truncation), and the unmutated corpus. Every project is compiled in a child process under a watchdog with a panic hook; Trace_Compile.tla requires the outcome to be code (which must load against the client runtime and build every requested parser) or at least one diagnostic whose file belongs to the project and whose line/column range lies inside that file; a panic, an abort (stack overflow) or a timeout is never accepted.",
+             ref="4/C04", note="Trusted: TLC; 'promptly' = 10 s watchdog; stack overflow observed as death of the child process; multi-file layouts with missing / cyclic imports are exercised by C09's generator.",
+             tech="TLC-enumerated grammar productions and mutation schedules compiled by the real compiler; outcomes judged by TLC"),
 }
 NA = []
 def main():
